@@ -10,6 +10,7 @@ from sfa.model import call_name
 from sfa.model import kwarg
 from sfa.model import norm
 from sfa.model import walk_local
+from sfa import roles
 from sfa.report import Ctx
 
 UNORDERED = ('as_completed', 'wait', 'imap_unordered', 'imap', 'apply_async', 'map_async', 'add_done_callback', 'starmap_async')
@@ -41,9 +42,11 @@ def ordered_primitives(ctx: Ctx) -> None:
     ctx.ok(R, 'core.<all names>', None, f'{n_names} names scanned; none of {UNORDERED} (fixture matched)', key='no-unordered', file='static_frame/core')
     for qual in PARALLEL_SITES:
         f = prog.func(qual)
+        execs = _executors(f.node)
         maps = [c for c in ast.walk(f.node) if isinstance(c, ast.Call) and isinstance(c.func, ast.Attribute) and c.func.attr == 'map'
-                and norm(c.func.value) == 'executor']
-        submits = [c for c in ast.walk(f.node) if isinstance(c, ast.Call) and isinstance(c.func, ast.Attribute) and c.func.attr == 'submit']
+                and isinstance(c.func.value, ast.Name) and c.func.value.id in execs]
+        submits = [c for c in ast.walk(f.node) if isinstance(c, ast.Call) and isinstance(c.func, ast.Attribute) and c.func.attr == 'submit'
+                   and isinstance(c.func.value, ast.Name) and c.func.value.id in execs]
         key = f'site:{qual.split(".", 1)[1]}'
         if maps:
             cs = kwarg(maps[0], 'chunksize')
@@ -53,13 +56,24 @@ def ordered_primitives(ctx: Ctx) -> None:
                                           'the pool ignores the configured worker count / chunk size', key=key)
         elif submits:
             # futures appended in submission order and read back by zipping with the labels
-            appended = any(isinstance(c, ast.Call) and isinstance(c.func, ast.Attribute) and c.func.attr == 'append' and norm(c.func.value) == 'futures'
-                           and c.args and c.args[0] is submits[0] for c in ast.walk(f.node))
-            readback = any(isinstance(n, ast.For) and norm(n.iter) == 'zip(labels, futures)' for n in ast.walk(f.node))
+            # the list the futures are appended to (in submission order) is the one read back, zipped after the label list
+            flists = [c.func.value.id for c in ast.walk(f.node) if isinstance(c, ast.Call) and isinstance(c.func, ast.Attribute) and c.func.attr == 'append'
+                      and isinstance(c.func.value, ast.Name) and c.args and c.args[0] is submits[0]]
+            appended = bool(flists)
+            readback = any(isinstance(n, ast.For) and isinstance(n.iter, ast.Call) and call_name(n.iter) == 'zip' and len(n.iter.args) == 2
+                           and isinstance(n.iter.args[1], ast.Name) and n.iter.args[1].id in flists
+                           and isinstance(n.iter.args[0], ast.Name) and n.iter.args[0].id in f.params for n in ast.walk(f.node))
             (ctx.ok if appended and readback else ctx.bad)(R, f, submits[0], 'futures are collected in submission order and read back with zip(labels, futures)' if appended and readback else
                                                            'futures are not read back in submission order', key=key)
         else:
             ctx.bad(R, f, f.node, 'no executor.map / submit found at a registered parallel site', key=key)
+
+
+def _executors(fn: ast.AST) -> tp.Set[str]:
+    '''Names bound by `with <pool constructor>(...) as name` (a call given max_workers, or a *PoolExecutor / pool_executor).'''
+    def is_pool(e: ast.expr) -> bool:
+        return isinstance(e, ast.Call) and (kwarg(e, 'max_workers') is not None or 'xecutor' in call_name(e) or 'Pool' in call_name(e))
+    return {n for n, _ in roles.with_targets(fn, is_pool)}
 
 
 def single_pass_pairing(ctx: Ctx) -> None:
@@ -70,12 +84,12 @@ def single_pass_pairing(ctx: Ctx) -> None:
     prog = ctx.prog
     n = 0
     for f in prog.all_funcs():
-        if isinstance(f.node, ast.Lambda) or f.name != 'arg_gen' or f.parent is None:
+        if isinstance(f.node, ast.Lambda) or f.parent is None or not f.is_generator or not _feeds_pool(f):
             continue
         n += 1
         parent = f.parent
         loops = [x for x in walk_local(f.node) if isinstance(x, ast.For)]
-        key = f'{parent.qualname.split(".", 1)[1]}.arg_gen@{f.node.lineno - parent.node.lineno}'
+        key = f'{parent.qualname.split(".", 1)[1]}.{f.name}#{sum(1 for g in parent.nested if g.name == f.name and g.node.lineno <= f.node.lineno)}'
         problems = []
         lists: tp.Set[str] = set()
         if not loops:
@@ -102,10 +116,10 @@ def single_pass_pairing(ctx: Ctx) -> None:
         if len(lists) == 1:
             lst = next(iter(lists))
             # the consumer: zip(lst, executor.map(..., arg_gen(), ...)) or self._apply_pool*(lst, arg_gen(), ...)
-            uses = [c for c in ast.walk(parent.node) if isinstance(c, ast.Call) and any(isinstance(a, ast.Call) and norm(a.func) == 'arg_gen' for a in ast.walk(c))
+            uses = [c for c in ast.walk(parent.node) if isinstance(c, ast.Call) and any(isinstance(a, ast.Call) and isinstance(a.func, ast.Name) and a.func.id == f.name for a in ast.walk(c))
                     and (call_name(c) == 'zip' or call_name(c).startswith('self._apply_pool'))]
             if not uses:
-                problems.append('arg_gen() is not consumed together with its label list')
+                problems.append(f'{f.name}() is not consumed together with its label list')
             for u in uses:
                 if not (u.args and norm(u.args[0]) == lst):
                     problems.append(f'`{call_name(u)}` pairs the results with `{norm(u.args[0]) if u.args else "?"}` instead of `{lst}`')
@@ -119,12 +133,43 @@ def single_pass_pairing(ctx: Ctx) -> None:
     # the pool helpers zip (labels, results) in that order
     for qual in ('batch.Batch._apply_pool', 'node_iter.IterNodeDelegate._apply_iter_items_parallel'):
         f = prog.func(qual)
+        execs = _executors(f.node)
         zips = [c for c in ast.walk(f.node) if isinstance(c, ast.Call) and call_name(c) == 'zip' and len(c.args) == 2
-                and isinstance(c.args[1], ast.Call) and norm(c.args[1].func) == 'executor.map']
-        good = bool(zips) and norm(zips[0].args[0]) in ('labels', 'func_keys')
+                and isinstance(c.args[1], ast.Call) and isinstance(c.args[1].func, ast.Attribute) and c.args[1].func.attr == 'map'
+                and isinstance(c.args[1].func.value, ast.Name) and c.args[1].func.value.id in execs]
+        # the first zip operand is the label list: a parameter of the helper, or the list the generator appends labels to
+        good = bool(zips) and isinstance(zips[0].args[0], ast.Name) and (zips[0].args[0].id in f.params or zips[0].args[0].id in _label_lists(f))
         it_arg = zips[0].args[1].args[1] if zips and len(zips[0].args[1].args) > 1 else None
         (ctx.ok if good else ctx.bad)(R, f, zips[0] if zips else f.node, f'zip({norm(zips[0].args[0])}, executor.map(..., {norm(it_arg)}, ...))' if good else
                                       'labels are not zipped with executor.map results', key=f'zip:{qual.split(".", 1)[1]}')
+
+
+def _feeds_pool(f: FuncInfo) -> bool:
+    '''A nested generator whose results are paired with an external label sequence: its call is an argument of a pool helper
+    (`self._apply_pool*`), or of an executor map that is itself an operand of `zip`.  (Generators whose payload carries its own
+    label, as in the zip stores, are the subject of I.parallel-config-alignment.)'''
+    parent = f.parent
+
+    def mentions(c: ast.Call) -> bool:
+        return any(isinstance(a, ast.Call) and isinstance(a.func, ast.Name) and a.func.id == f.name for a in list(c.args) + [k.value for k in c.keywords])
+    for c in ast.walk(parent.node):
+        if not isinstance(c, ast.Call):
+            continue
+        if call_name(c).startswith('self._apply_pool') and mentions(c):
+            return True
+        if call_name(c) == 'zip' and any(isinstance(a, ast.Call) and isinstance(a.func, ast.Attribute) and a.func.attr == 'map' and mentions(a) for a in c.args):
+            return True
+    return False
+
+
+def _label_lists(f: FuncInfo) -> tp.Set[str]:
+    out: tp.Set[str] = set()
+    for g in f.nested:
+        if g.is_generator:
+            for c in ast.walk(g.node):
+                if isinstance(c, ast.Call) and isinstance(c.func, ast.Attribute) and c.func.attr == 'append' and isinstance(c.func.value, ast.Name):
+                    out.add(c.func.value.id)
+    return out
 
 
 def errors_surface(ctx: Ctx) -> None:
@@ -141,7 +186,9 @@ def errors_surface(ctx: Ctx) -> None:
             continue
         for t in tries:
             if qual.endswith('_apply_pool_except'):
-                good = len(t.handlers) == 1 and norm(t.handlers[0].type) == 'exception' and len(t.body) == 1 and 'future.result()' in norm(t.body[0]) \
+                calls = [c for c in ast.walk(t.body[0]) if isinstance(c, ast.Call)] if len(t.body) == 1 else []
+                good = len(t.handlers) == 1 and isinstance(t.handlers[0].type, ast.Name) and t.handlers[0].type.id in f.params \
+                    and len(calls) == 1 and isinstance(calls[0].func, ast.Attribute) and calls[0].func.attr == 'result' \
                     and len(t.handlers[0].body) == 1 and isinstance(t.handlers[0].body[0], ast.Continue)
                 (ctx.ok if good else ctx.bad)(R, f, t, 'only the caller-supplied exception class is caught, around future.result() alone, and the label is skipped with it' if good else
                                               f'the handler catches `{norm(t.handlers[0].type) if t.handlers else "?"}` / does more than skip this label', key=key)
@@ -151,7 +198,7 @@ def errors_surface(ctx: Ctx) -> None:
     for m in ('apply_except', 'apply_items_except'):
         f = prog.method('Batch', m, inherited=False)
         hs = [h for t in ast.walk(f.node) if isinstance(t, ast.Try) for h in t.handlers]
-        good = bool(hs) and all(norm(h.type) == 'exception' for h in hs)
+        good = bool(hs) and all(isinstance(h.type, ast.Name) and h.type.id in f.params for h in hs)
         (ctx.ok if good else ctx.bad)(R, f, f.node, 'sequential form catches only the caller-supplied class' if good else 'sequential form catches more than the caller-supplied class', key=f'seq:{m}')
 
 
@@ -159,7 +206,7 @@ def config_alignment(ctx: Ctx) -> None:
     R = 'I.parallel-config-alignment'
     ctx.rule(R, 'StoreConfigMap rejects per-label worker settings that differ from the default (the pool is configured from the default '
              'config only): the four worker attributes are in _ALIGN_WITH_DEFAULT_ATTRS and the constructor loop raises; the zip store '
-             'builds pools from config_map.default and both paths of read_many share one payload generator', floor=6)
+             'builds pools from config_map.default and both paths of read_many share one payload generator', floor=8)
     prog = ctx.prog
     k = prog.cls('StoreConfigMap')
     attrs = k.attrs.get('_ALIGN_WITH_DEFAULT_ATTRS')
@@ -168,20 +215,75 @@ def config_alignment(ctx: Ctx) -> None:
         (ctx.ok if a in vals else ctx.bad)(R, k.qualname, attrs, f'{a} must align with the default' if a in vals else
                                            f'{a} is not checked against the default config: a per-label value is silently ignored', key=f'align:{a}', file=k.module.relpath)
     init = k.methods['__init__']
-    loop = [n for n in walk_local(init.node) if isinstance(n, ast.For) and norm(n.iter) == 'self._ALIGN_WITH_DEFAULT_ATTRS']
-    good = bool(loop) and any(isinstance(x, ast.Raise) for x in ast.walk(loop[0])) and 'getattr(config, attr) != getattr(self._default, attr)' in norm(loop[0])
-    (ctx.ok if good else ctx.bad)(R, init, loop[0] if loop else init.node, 'a differing attribute raises ErrorInitStoreConfig' if good else 'the alignment loop no longer raises', key='align:loop')
-    rm = prog.func('store_zip._StoreZip.read_many')
-    src = norm(rm.node)
-    good = 'executor.map(self._payload_to_frame, gen(), chunksize=chunksize)' in src and 'yield from gen()' in src \
-        and 'ProcessPoolExecutor(max_workers=config_map.default.read_max_workers)' in src and 'chunksize = config_map.default.read_chunksize' in src
-    (ctx.ok if good else ctx.bad)(R, rm, rm.node, 'parallel and sequential read share gen(); pool built from config_map.default.read_*' if good else
-                                  'read_many: parallel and sequential paths no longer share the payload generator / default worker settings', key='zip:read_many')
-    payload_ok = 'name=label' in src and 'config=c.to_store_config_he()' in src and 'c: StoreConfig = config_map[label]' in src
-    (ctx.ok if payload_ok else ctx.bad)(R, rm, rm.node, 'each payload carries its own label and that label\'s config', key='zip:read-payload')
-    wr = prog.func('store_zip._StoreZip.write')
-    src = norm(wr.node)
-    good = 'executor.map(self._payload_to_bytes, gen(), chunksize=config_map.default.write_chunksize)' in src \
-        and 'ProcessPoolExecutor(max_workers=config_map.default.write_max_workers)' in src and 'name=label' in src and 'config=config_map[label].to_store_config_he()' in src
-    (ctx.ok if good else ctx.bad)(R, wr, wr.node, 'write: payload carries label and its config; pool from config_map.default.write_*' if good else
-                                  'write: payload / pool configuration changed', key='zip:write')
+    loop = [n for n in walk_local(init.node) if isinstance(n, ast.For) and norm(n.iter).endswith('._ALIGN_WITH_DEFAULT_ATTRS')]
+    good = False
+    if loop and isinstance(loop[0].target, ast.Name):
+        a = loop[0].target.id
+        # a raise guarded by getattr(<config>, a) != getattr(self._default, a)
+        for test_if in [x for x in ast.walk(loop[0]) if isinstance(x, ast.If) and any(isinstance(y, ast.Raise) for y in x.body)]:
+            t = test_if.test
+            if isinstance(t, ast.Compare) and len(t.ops) == 1 and isinstance(t.ops[0], ast.NotEq):
+                sides = [t.left, t.comparators[0]]
+                gets = [x for x in sides if isinstance(x, ast.Call) and call_name(x) == 'getattr' and len(x.args) == 2 and isinstance(x.args[1], ast.Name) and x.args[1].id == a]
+                objs = sorted(norm(x.args[0]) for x in gets)
+                if len(gets) == 2 and 'self._default' in objs and objs[0] != objs[1]:
+                    good = True
+    (ctx.ok if good else ctx.bad)(R, init, loop[0] if loop else init.node, 'a differing attribute raises ErrorInitStoreConfig' if good else 'the alignment loop no longer raises on an attribute that differs from the default', key='align:loop')
+    for qual, kind, key in (('store_zip._StoreZip.read_many', 'read', 'zip:read_many'), ('store_zip._StoreZip.write', 'write', 'zip:write')):
+        f = prog.func(qual)
+        inl = roles.Inliner(f.node)
+        problems = []
+        gens = [g for g in f.nested if g.is_generator and any(isinstance(y, ast.Yield) for y in walk_local(g.node))
+                and not any(isinstance(c, ast.Call) and isinstance(c.func, ast.Attribute) and c.func.attr == 'map' for c in ast.walk(g.node))]
+        pools = [c for c in ast.walk(f.node) if isinstance(c, ast.Call) and kwarg(c, 'max_workers') is not None]
+        if not pools:
+            problems.append('no worker pool is built')
+        for c in pools:
+            mw = inl.text(kwarg(c, 'max_workers'))
+            if not mw.endswith(f'.default.{kind}_max_workers'):
+                problems.append(f'the pool takes max_workers from `{mw}` instead of the default config\'s {kind}_max_workers')
+        execs = _executors(f.node)
+        maps = [c for c in ast.walk(f.node) if isinstance(c, ast.Call) and isinstance(c.func, ast.Attribute) and c.func.attr == 'map'
+                and isinstance(c.func.value, ast.Name) and c.func.value.id in execs]
+        if not maps:
+            problems.append('no executor.map over the payloads')
+        fed = set()
+        for c in maps:
+            cs = inl.text(kwarg(c, 'chunksize'))
+            if not cs.endswith(f'.default.{kind}_chunksize'):
+                problems.append(f'executor.map takes chunksize from `{cs or "nothing"}` instead of the default config\'s {kind}_chunksize')
+            if len(c.args) >= 2 and isinstance(c.args[1], ast.Call) and isinstance(c.args[1].func, ast.Name):
+                fed.add(c.args[1].func.id)
+        gen_names = {g.name for g in gens}
+        if not (fed and fed <= gen_names):
+            problems.append('the pool is not fed by the payload generator')
+        # the sequential path consumes the same generator
+        def is_gen_call(e: tp.Optional[ast.AST]) -> bool:
+            return isinstance(e, ast.Call) and isinstance(e.func, ast.Name) and e.func.id in fed
+        seq_direct = [x for x in ast.walk(f.node) if (isinstance(x, ast.YieldFrom) and is_gen_call(x.value)) or (isinstance(x, ast.For) and is_gen_call(x.iter))
+                      or (isinstance(x, ast.comprehension) and is_gen_call(x.iter))]
+        seq_any = [c for c in ast.walk(f.node) if is_gen_call(c) and not any(c is m.args[1] for m in maps if len(m.args) >= 2)]
+        if not seq_any:
+            problems.append('the sequential path does not consume the payload generator the pool consumes')
+        elif len(seq_direct) != len(seq_any):
+            problems.append('the sequential path does not iterate the payload generator directly (in order, once), as the pool does')
+        (ctx.bad if problems else ctx.ok)(R, f, f.node, '; '.join(problems) or f'parallel and sequential {kind} share one payload generator; pool and chunk size come from the default config', key=key)
+        # each payload carries the label of its own iteration and that label's config
+        problems = []
+        n_payload = 0
+        for g in gens:
+            if g.name not in fed:
+                continue
+            for lp in [x for x in ast.walk(g.node) if isinstance(x, ast.For)]:
+                lab = roles.first_target_name(lp.target)
+                for y in [x for x in ast.walk(lp) if isinstance(x, ast.Yield) and isinstance(x.value, ast.Call)]:
+                    n_payload += 1
+                    nm = kwarg(y.value, 'name')
+                    cf = inl.text(kwarg(y.value, 'config'))
+                    if not (isinstance(nm, ast.Name) and nm.id == lab):
+                        problems.append(f'payload name `{norm(nm)}` is not the label of this iteration `{lab}`')
+                    if f'[{lab}]' not in cf:
+                        problems.append(f'payload config `{cf}` is not looked up with this iteration\'s label `{lab}`')
+        if not n_payload:
+            problems.append('no payload is yielded')
+        (ctx.bad if problems else ctx.ok)(R, f, f.node, '; '.join(problems) or f'each {kind} payload carries its own label and that label\'s config', key=key + ':payload')
